@@ -229,6 +229,13 @@ Proof. intro K. unfold interrupted, PF, Fp. p_walk c7. all: p_done. Qed.
 Ltac c8 := idtac; first [ c7 | lazymatch goal with
   | |- wp _ interrupted _ _ _ => p_docall p_interrupted end ].
 
+(* outcomes held back until an API call returns do not move the monitor *)
+Lemma neutral_pw g l : forallb pw_neutral l = true -> gouts pw_out g l = Some g.
+Proof.
+  induction l as [|x l IH]; cbn [forallb gouts]; [reflexivity|]. intro H. apply andb_prop in H. destruct H as [H1 H2].
+  destruct x; try discriminate H1; cbn [pw_out]; auto.
+Qed.
+
 (* ---------- the re-entrant methods ---------- *)
 (* what a continuation needs on entry: the invariant; inside the window a dead and drained state (except stop()
    itself, which makes it so); a block is handed on only with no processor result pending and a block in progress *)
@@ -451,7 +458,7 @@ Proof.
       intros r0 g2 s2 [-> H2]. apply HQ; auto. }
   apply Hloop. intros g2 s2 -> K3. cbn beta iota.
   destruct cont.
-  - apply wp_swallow. eapply wp_conseq; [ apply (Hrec_plain KCommitAndStop (fst d, fst d) None s2 K3); [intro; discriminate | exact I] |].
+  - apply wp_swallow. eapply wp_conseq; [ apply (Hrec_plain KCommitAndStop (fst d, fst d) None s2 K3); exact I |].
     intros r0 g3 s3 [-> H3]. split; [reflexivity | left; exact H3].
   - apply wp_ret. split; [reflexivity | left; exact K3].
 Qed.
@@ -557,7 +564,7 @@ Proof.
   - (* no plan left: the processor returns a pending Deferred *)
     apply wp_emit. eexists. split. { unfold pw_abs. cbn [pw_out w_st w_plan w_lp]. rewrite SP, PL. reflexivity. }
     cbn beta iota. unfold pop_plan. apply wp_bind, wp_bind, wp_get. cbn beta iota. rewrite PL. apply wp_ret. cbn beta iota.
-    cbn [fst snd]. change (0 =? 1) with false. change (0 =? 2) with false. cbn beta iota.
+    cbn [fst snd]. change (0 =? 1) with false. change (0 =? 2) with false. change (0 =? 3) with false. cbn beta iota.
     apply wp_bind, wp_ret. cbn beta iota.
     apply (FIN 2 _ s); auto. unfold pw_finish. cbn. rewrite PL. reflexivity.
   - assert (K1 : PInv (false, false) None (set_plan pl s)) by psolve.
@@ -565,7 +572,7 @@ Proof.
               (Q (Ok (i, r)) g (set_plan pl s)) -> ww pop_plan Q g s).
     { intros Q g HQ. unfold pop_plan. apply wp_bind, wp_get. cbn beta iota. rewrite PL. apply wp_bind, wp_upd. cbn beta iota.
       apply wp_ret. exact HQ. }
-    destruct (i =? 1) eqn:I1; [| destruct (i =? 2) eqn:I2].
+    destruct (i =? 1) eqn:I1; [| destruct (i =? 2) eqn:I2; [| destruct (i =? 3) eqn:I3]].
     + (* the processor calls consumer.stop() before returning *)
       apply wp_emit. eexists. split.
       { unfold pw_abs. cbn [pw_out w_st w_plan w_lp]. rewrite SP, PL. cbn [fst snd]. rewrite I1. reflexivity. }
@@ -573,8 +580,9 @@ Proof.
       apply wp_bind. unfold api_stop. apply wp_bind, wp_try.
       change {| w_st := PApi (List.last (m0 :: tl) m0) r; w_plan := pl; w_lp := s_lp s |}
         with (pw_abs (Some (last, r)) (set_plan pl s)).
-      eapply wp_conseq; [ apply (Hrec_stop (false, false) (Some (last, r)) (set_plan pl s) K1);
-                          [ intros _; psimpl; exact SP | psimpl; rewrite SD; reflexivity ] |].
+      assert (K1w : PInv (false, false) (Some (last, r)) (set_plan pl s)) by (clear - K SP MB; psolve).
+      eapply wp_conseq; [ apply (Hrec_stop (false, false) (Some (last, r)) (set_plan pl s) K1w);
+                          psimpl; rewrite SD; reflexivity |].
       intros r1 g1 s1 [-> K2]. cbn beta iota. apply wp_bind, wp_get. cbn beta iota.
       assert (FIN1 : ww (tail_of last rest r)
                    (fun (_ : res unit) (g' : gpw) (s' : state) =>
@@ -594,7 +602,7 @@ Proof.
       apply wp_bind, wp_try.
       change {| w_st := PApi (List.last (m0 :: tl) m0) r; w_plan := pl; w_lp := s_lp s |}
         with (pw_abs (Some (last, r)) (set_ncommit (s_ncommit (set_plan pl s) + 1) (set_plan pl s))).
-      assert (K2 : PInv (false, false) (Some (last, r)) (set_ncommit (s_ncommit (set_plan pl s) + 1) (set_plan pl s))) by psolve.
+      assert (K2 : PInv (false, false) (Some (last, r)) (set_ncommit (s_ncommit (set_plan pl s) + 1) (set_plan pl s))) by (clear - K SP MB; psolve).
       eapply wp_conseq; [ apply (p_commit _ _ _ _ K2) |].
       intros r1 g1 s1 ((-> & K3) & (F1 & F2 & F3 & F4) & F5). cbn beta iota. psimpl.
       assert (FIN1 : ww (tail_of last rest r)
@@ -603,17 +611,58 @@ Proof.
                     (PInv (false, false) None s' \/
                      KProcLoop (m0 :: ms) = KStop /\ Some false = None /\ PInv (false, false) None s'))
                    (pw_finish (mkPW PIdle (s_plan s1) (s_lp s1)) last r) s1).
-      { apply (FIN r _ s1 eq_refl); [ exact K3 | congruence | ].
+      { apply (FIN r _ s1 eq_refl); [ clear - K3; psolve | congruence | ].
         rewrite F2. apply orb_true_iff. right. exact MB. }
       destruct r1 as [[cr|]|k]; cbn beta iota.
       * apply wp_bind, wp_emit. eexists. split; [reflexivity|]. cbn beta iota.
         apply wp_emit. eexists. split; [reflexivity|]. cbn beta iota. exact FIN1.
       * apply wp_emit. eexists. split; [reflexivity|]. cbn beta iota. exact FIN1.
       * apply wp_emit. eexists. split; [reflexivity|]. cbn beta iota. exact FIN1.
+    + (* the processor calls consumer.shutdown() before returning *)
+      apply wp_emit. eexists. split.
+      { unfold pw_abs. cbn [pw_out w_st w_plan w_lp]. rewrite SP, PL. cbn [fst snd]. rewrite I1, I2, I3. reflexivity. }
+      cbn beta iota. apply wp_bind, POP. cbn beta iota. cbn [fst snd]. rewrite I1, I2, I3.
+      apply wp_bind. unfold api_shutdown. apply wp_bind, wp_get. cbn beta iota. psimpl.
+      change {| w_st := PApi (List.last (m0 :: tl) m0) r; w_plan := pl; w_lp := s_lp s |}
+        with (pw_abs (Some (last, r)) (set_plan pl s)).
+      assert (K1w : PInv (false, false) (Some (last, r)) (set_plan pl s)) by (clear - K SP MB; psolve).
+      (* whatever shutdown() did, its return closes the window in a state from which the tail goes on *)
+      assert (CLOSE : forall s4, PInv (false, false) (Some (last, r)) s4 ->
+                ww (tail_of last rest r)
+                   (fun (_ : res unit) (g' : gpw) (s' : state) =>
+                    g' = pw_abs None s' /\
+                    (PInv (false, false) None s' \/
+                     KProcLoop (m0 :: ms) = KStop /\ Some false = None /\ PInv (false, false) None s'))
+                   (pw_finish (mkPW PIdle (s_plan s4) (s_lp s4)) last r) s4).
+      { intros s4 K4. apply (FIN r _ s4 eq_refl); clear - K4; psolve. }
+      destruct (negb (is_some (s_startd s)) || s_shutd s) eqn:SH0.
+      * apply wp_bind, wp_emit. eexists. split; [reflexivity|]. cbn beta iota.
+        apply wp_emit. eexists. split; [reflexivity|]. cbn beta iota. apply CLOSE. exact K1w.
+      * apply wp_bind, wp_upd. cbn beta iota. rewrite SP. apply wp_bind, wp_try.
+        match goal with |- wp _ _ _ _ ?st => set (s2 := st) end.
+        assert (K2 : PInv (false, false) (Some (last, r)) s2)
+          by (subst s2; clear - K SP MB; psimpl; destruct (s_maxatt s =? 0); psolve).
+        assert (G2 : pw_abs (Some (last, r)) (set_plan pl s) = pw_abs (Some (last, r)) s2)
+          by (subst s2; psimpl; destruct (s_maxatt s =? 0); reflexivity).
+        rewrite G2. clearbody s2.
+        eapply wp_conseq; [ apply (Hrec_plain KCommitAndStop (false, false) (Some (last, r)) s2 K2); exact I |].
+        intros r1 g3 s3 [-> K3]. cbn beta iota. apply wp_bind, wp_get. cbn beta iota. apply wp_bind, wp_upd. cbn beta iota.
+        set (s4 := set_pend (s_pend s) (set_inapi (s_inapi s) s3)).
+        assert (NPs : forallb pw_neutral (s_pend s) = true)
+          by (clear - K; unfold PInv in K; repeat (apply andb_prop in K; destruct K as [K ?]); assumption).
+        assert (K4 : PInv (false, false) (Some (last, r)) s4) by (subst s4; clear - NPs K3; psolve).
+        assert (G4 : pw_abs (Some (last, r)) s3 = pw_abs (Some (last, r)) s4) by reflexivity.
+        rewrite G4.
+        assert (NP3 : forallb pw_neutral (s_pend s3) = true)
+          by (clear - K3; unfold PInv in K3; repeat (apply andb_prop in K3; destruct K3 as [K3 ?]); assumption).
+        clearbody s4. destruct r1.
+        -- apply wp_bind. apply wp_emits. exists (pw_abs (Some (last, r)) s4). split; [apply neutral_pw; exact NP3|]. cbn beta iota.
+           apply wp_emit. eexists. split; [reflexivity|]. cbn beta iota. apply CLOSE. exact K4.
+        -- apply wp_emit. eexists. split; [reflexivity|]. cbn beta iota. apply CLOSE. exact K4.
     + (* it returns / raises / returns a Deferred without calling back *)
       apply wp_emit. eexists. split.
-      { unfold pw_abs. cbn [pw_out w_st w_plan w_lp]. rewrite SP, PL. cbn [fst snd]. rewrite I1, I2. reflexivity. }
-      cbn beta iota. apply wp_bind, POP. cbn beta iota. cbn [fst snd]. rewrite I1, I2.
+      { unfold pw_abs. cbn [pw_out w_st w_plan w_lp]. rewrite SP, PL. cbn [fst snd]. rewrite I1, I2, I3. reflexivity. }
+      cbn beta iota. apply wp_bind, POP. cbn beta iota. cbn [fst snd]. rewrite I1, I2, I3.
       apply wp_bind, wp_ret. cbn beta iota.
       apply (FIN r _ (set_plan pl s) eq_refl); [ exact K1 | psimpl; exact SP | psimpl; exact MB' ].
 Qed.
@@ -621,15 +670,15 @@ Qed.
 Lemma p_body k d w g s : PreD k d w g s -> ww (body rec k) (PostD k d w s) g s.
 Proof.
   intro Pre. destruct k.
-  - destruct Pre as (-> & K & W). apply p_body_KStop; auto.
-  - destruct Pre as (-> & K & W). apply p_body_KStopCds; auto.
+  - destruct Pre as (-> & K). apply p_body_KStop; auto.
+  - destruct Pre as (-> & K). apply p_body_KStopCds; auto.
   - apply p_body_KFireProc; auto.
   - destruct Pre as (-> & K & W & L). apply p_body_KProcLoop; auto.
   - destruct Pre as (-> & K & W). apply p_body_KFetchResp; auto.
-  - destruct Pre as (-> & K & W). apply p_body_KCommitAndStop; auto.
-  - destruct Pre as (-> & K & W). apply p_body_KShutFinish; auto.
-  - destruct Pre as (-> & K & W). apply p_body_KFireCd; auto.
-  - destruct Pre as (-> & K & W). apply p_body_KDeliver; auto.
+  - destruct Pre as (-> & K). apply p_body_KCommitAndStop; auto.
+  - destruct Pre as (-> & K). apply p_body_KShutFinish; auto.
+  - destruct Pre as (-> & K). apply p_body_KFireCd; auto.
+  - destruct Pre as (-> & K). apply p_body_KDeliver; auto.
 Qed.
 End Rec.
 
